@@ -96,7 +96,13 @@ def evaluate(ctx, b, lib, model_exe, n_pops, per_class):
         res = oracle(v, base, rr)
         if res:
             kind, what = res
-            ctx.violation(f"{kind}:{v.key()}", what, {"schema": lib.express, "file": text, "class": v.cls, "victim": v.victim,
+            key = f"{kind}:{v.key()}"
+            if kind == "detect" and "@complex" in v.detail and not rr.died:
+                # one root cause (STEPcomplex::STEPread drops what the parts other than the head report; repaired by
+                # fixes/C15-3 and C15-4): one stable key whatever the violation class and position
+                key = "detect:violation-in-complex-part"
+                what += " (the violation is in a part of an externally mapped instance)"
+            ctx.violation(key, what, {"schema": lib.express, "file": text, "class": v.cls, "victim": v.victim,
                                                        "not_claimed": sorted(v.skip_confine), "conforming_file": bases[bi][1]})
         d = compare(v, rr, mr)
         if d:
